@@ -90,6 +90,8 @@ declarations:
   - decl: Builder & setName(const std::string &name)
     return_this: True
   - decl: int size() const
+  - decl: int m_count +readonly
+  - decl: double m_scale
 - decl: void apply(int n = 1, int m = 2)
 """
 # classes as the declarations that carry the override: the flag on a class governs the class and everything in it
@@ -113,6 +115,47 @@ declarations:
   declarations:
   - decl: deltafour()
   - decl: bool flip(bool flag)
+"""
+# instantiations of a class template as the declarations that carry the override (options of a cxx_template entry)
+FUNCS_TMPL = """\
+library: Sel
+cxx_header: sel.hpp
+declarations:
+- decl: template<typename T> class Box
+  cxx_template:
+  - instantiation: <int>
+    format:
+      template_suffix: _alphaone
+  - instantiation: <long>
+    format:
+      template_suffix: _betatwo
+  - instantiation: <double>
+    format:
+      template_suffix: _gammathree
+  - instantiation: <float>
+    format:
+      template_suffix: _deltafour
+  declarations:
+  - decl: Box()
+  - decl: T get()
+"""
+# namespaces as the declarations that carry the override
+FUNCS_NSV = """\
+library: Sel
+cxx_header: sel.hpp
+declarations:
+- decl: namespace nsalphaone
+  declarations:
+  - decl: int alphaone(int a)
+- decl: namespace nsbetatwo
+  declarations:
+  - decl: void betatwo(const std::string &s)
+- decl: namespace nsgammathree
+  declarations:
+  - decl: double gammathree(double *v +rank(1), int n +implied(size(v)))
+- decl: namespace nsdeltafour
+  declarations:
+  - decl: bool deltafour(bool flag)
 """
 DESCS = {
     "functions": FUNCS,
@@ -269,23 +312,23 @@ def run(ctx):
     # ---- (b) per-declaration overrides
     names = ["alphaone", "betatwo", "gammathree"]
     for lang in LANGS:
-        for libdefault, nested in ((True, False), (False, False), (False, True), (True, True), (False, 2), (True, 2), (True, "flat"), (False, "flat"), (True, "flat2"), (True, "class"), (False, "class")):
+        for libdefault, nested in ((True, False), (False, False), (False, True), (True, True), (False, 2), (True, 2), (True, "flat"), (False, "flat"), (True, "flat2"), (True, "class"), (False, "class"), (True, "nsv"), (False, "nsv"), (True, "tmpl"), (False, "tmpl")):
             allflags = list(itertools.product(["inherit", True, False], repeat=3))
             if nested and quick:
                 allflags = allflags[::3]
             for flags in allflags:
-                if nested == "class":
-                    d = copy.deepcopy(yaml.safe_load(FUNCS_CLS))
+                if nested in ("class", "nsv", "tmpl"):
+                    d = copy.deepcopy(yaml.safe_load(FUNCS_CLS if nested == "class" else FUNCS_NSV if nested == "nsv" else FUNCS_TMPL))
                     opts = d.setdefault("options", {})
                     for l2 in LANGS:
                         opts["wrap_" + l2] = True
                     opts["wrap_" + lang] = libdefault
                     if lang == "c":
                         opts["wrap_fortran"] = False
-                    for fdecl, fl in zip(d["declarations"], flags):
+                    for fdecl, fl in zip(d["declarations"] if nested != "tmpl" else d["declarations"][0]["cxx_template"], flags):
                         if fl != "inherit":
                             fdecl.setdefault("options", {})["wrap_" + lang] = fl
-                    add(("decl", lang, libdefault, flags, False), d)
+                    add(("decl", lang, libdefault, flags, "tmpl" if nested == "tmpl" else False), d)
                     continue
                 flat = nested in ("flat", "flat2")
                 if flat:
@@ -376,7 +419,7 @@ def run(ctx):
         elif tag[0] == "decl":
             _, lang, libdefault, flags, flat = tag
             # in a flattened namespace the Fortran name carries the namespace
-            fname = (lambda n: "nsx_" + n) if (flat and lang == "fortran") else (lambda n: n)
+            fname = (lambda n: "box_" + n) if (flat == "tmpl" and lang == "fortran") else (lambda n: "nsx_" + n) if (flat and lang == "fortran") else (lambda n: n)
             for nm, fl in zip(names, flags):
                 on = libdefault if fl == "inherit" else fl
                 seen = appears(fname(nm), lang, r["content"])
